@@ -1,6 +1,7 @@
 import Frp.Driver.Proto
 import Frp.Model.Host
 import Frp.Props.C06
+import Frp.Props.C06Conn
 /-
   Driver engine "vreg" (C06): replays the harness trace of real `proxy.NewProxy(...).Run()` /
   `Close()` for http, https and tcpmux proxies interleaved with real routed requests on
@@ -25,6 +26,9 @@ structure VRegState where
   pc    : List (Nat × Creds) := []
   /-- the credentials in the route config of a group object = its first member's (`tmp := routeConfig`) -/
   gc    : List (Nat × Creds) := []
+  /-- client connections (hopen / hnext / hshut): the model's connection table and how each was opened -/
+  cs    : HttpConn.Conns := []
+  forms : List (Nat × String) := []
 
 def vregCreds (l : List (Nat × Creds)) (k : Nat) : Creds := (l.lookup k).getD ([], [])
 
@@ -133,6 +137,46 @@ def vregAuthLookup (st : VRegState) (canon specHost path u pw : Str) (plain : Bo
       | none => none
   verdictOf ms impl prop
 
+/-- the credentials stored with the route a request resolves to refuse the pair (u, ""): 401, nobody is asked -/
+def vregRefused (st : VRegState) (canon path u : Str) : Bool :=
+  match getVhost st.http.tab.R canon path u with
+  | some r => !checkAuth (if r.payload % 2 = 0 then vregCreds st.pc (r.payload / 2)
+                          else vregCreds st.gc (r.payload / 2)) u []
+  | none => false
+
+def vregSrv (st : VRegState) : HttpConn.Srv := { R := st.http.tab.R, next := 0, pool := [] }
+
+/-- one request on client connection `c` (HTTP/1.1, possibly asking for the h2c upgrade, or the next stream of an
+    HTTP/2 connection) through `HttpConn.step never`: the route is the request's own in the table as it is
+    (`C06.wrapped_own_route`, `C06.conn_history_eq_ref`), whatever the connection carried before; a request refused
+    with 401 is answered by `authorize` and changes nothing.  The C06 predicate w.r.t. the live proxies is evaluated
+    on the proxy instance the implementation asked. -/
+def vregConnReq (st : VRegState) (c : Nat) (upgrade : Bool) (n : Str) (d : String) (p : Option Str) (path u : Str)
+    (impl : String) : VRegState × Verdict :=
+  let host := C06.spell n (d = "1") p
+  let canon := (Host.canonicalHost host).getD []
+  let plain := decide (C06.PlainName n ∧ C06.PortPlain p)
+  let h2now := match st.cs.lookup c with | some (some _) => true | _ => false
+  if vregRefused st canon path u then
+    let cs' := if h2now then st.cs else HttpConn.setConn st.cs c none
+    ({ st with cs := cs' }, verdictOf ((if h2now then "h2:" else "h1:") ++ "none") impl)
+  else
+  let q : HttpConn.Req := { host := host, path := path, user := u, peer := c }
+  let r := HttpConn.step HttpConn.never (vregSrv st) st.cs (.req c upgrade q false)
+  let proto := match r.2.1.lookup c with | some (some _) => "h2:" | _ => "h1:"
+  let body := if impl.startsWith "h1:" ∨ impl.startsWith "h2:" then String.ofList (impl.toList.drop 3) else impl
+  let T := st.http.tab
+  let ans := vregAnswer body
+  let ms := match r.2.2 with
+    | some (some pl) =>
+      let ids := servers T pl
+      (match ans with
+       | some (some i) => if ids.contains i then ToString.toString i else "one-of:" ++ ToString.toString ids
+       | _ => "one-of:" ++ ToString.toString ids)
+    | _ => "none"
+  let prop := if plain then ans.map (fun a => C06.holdsOn (liveRoutes st.http.hs) (toLower n) path u a) else none
+  ({ st with cs := r.2.1 }, verdictOf (proto ++ ms) impl prop)
+
 def vregStep (st : VRegState) (tok : List String) (impl : String) : VRegState × Verdict :=
   match tok with
   | ["reset", sh] =>
@@ -212,6 +256,34 @@ def vregStep (st : VRegState) (tok : List String) (impl : String) : VRegState ×
       -- GetHTTPSHostname: the SNI name as sent; Muxer.handle lower-cases it
       (st, vregLookup st.https.tab (liveRoutes st.https.hs) (toLower n) (toLower n) [] [] true impl)
     | none => (st, .bad "sreq")
+  | ["hopen", c, form, n, d, p, path, u] =>
+    match c.toNat?, unhx n, vregPort p, unhx path, unhx u with
+    | some c, some n, some p, some path, some u =>
+      let st := { st with cs := st.cs.filter (fun e => e.1 ≠ c), forms := st.forms.filter (fun e => e.1 ≠ c) }
+      if form = "p" then
+        -- `PRI * HTTP/2.0`: no Host, path "*", no credentials
+        if vregRefused st [] [star] [] then (st, verdictOf "dead" impl) else
+        let r := HttpConn.step HttpConn.never (vregSrv st) st.cs (.pri c)
+        match r.2.1.lookup c with
+        | some (some _) => ({ st with cs := r.2.1, forms := (c, form) :: st.forms }, verdictOf "pri" impl)
+        | _ => ({ st with cs := r.2.1 }, verdictOf "dead" impl)
+      else if path.head? ≠ some 47 then (st, verdictOf "badpath" impl)
+      else vregConnReq { st with forms := (c, form) :: st.forms } c (form = "u") n d p path u impl
+    | _, _, _, _, _ => (st, .bad "hopen")
+  | ["hnext", c, n, d, p, path, u] =>
+    match c.toNat?, unhx n, vregPort p, unhx path, unhx u with
+    | some c, some n, some p, some path, some u =>
+      match st.forms.lookup c with
+      | none => (st, verdictOf "gone" impl)
+      | some form =>
+        if path.head? ≠ some 47 then (st, verdictOf "badpath" impl)
+        else vregConnReq st c (form = "u") n d p path u impl
+    | _, _, _, _, _ => (st, .bad "hnext")
+  | ["hshut", c] =>
+    match c.toNat? with
+    | some c => ({ st with cs := st.cs.filter (fun e => e.1 ≠ c), forms := st.forms.filter (fun e => e.1 ≠ c) },
+                 verdictOf "-" impl)
+    | none => (st, .bad "hshut")
   | ["view"] =>
     -- the property clause "the route tables are exactly the union of the live proxies' triples",
     -- evaluated on the implementation's own tables
